@@ -47,7 +47,7 @@ def build(ctx):
                     for k, chunk in enumerate(groups):
                         nm = chunk[0][0] if dynamic else str(k)
                         hs.append(P.Harness("%s_%s_%s_%s_%s_%s_cxx%s" % (sch.ns, msg.name, lv.name, kind, nm, mode, std), mk(u, g, chunk, N, E, D), [u], unwind=G + 2,
-                                            cap=ctx.q(150, 900), backends=["minisat", "kissat"], extra_flags=["--no-standard-checks"],
+                                            cap=ctx.q(300, 900), backends=["minisat", "kissat"], extra_flags=["--no-standard-checks"],
                                             meta={"big_loops": ["ref_walk_%s.%d" % (msg.name, x) for x in range(16)]},
                                             desc="message %s.%s level %s under schema extension (wire blockLength up to compiled+%d at every level): %s %s found where the wire image puts it" % (sch.ns, msg.name, lv.name, E, kind, [a[0] for a in chunk]),
                                             bounds={"N": N, "G": G, "D": D, "E": E, "std": "c++" + std, "build": mode, "byte_order": "BE" if sch.be else "LE"}))
